@@ -143,7 +143,7 @@ def gen_acq(tier, envs=("q", "a"), shapes=None, only_try=False, only_blocking=Fa
                 else:
                     variants.append(("lent", "drop"))
                 for keystyle, release in variants:
-                    nm, txt = acq_entry(sh, api, mode, blocking, style, env, keystyle, release, budget=budget)
+                    nm, txt = acq_entry(sh, api, mode, blocking, style, env, keystyle, release, budget=(budget(sh) if callable(budget) else budget))
                     names.append(nm)
                     out.append(txt)
     return "\n".join(out), names
